@@ -476,6 +476,15 @@ def c13_slices(tier):
         RPolys=fn({1: seq([4, 1]), 2: seq([9, 3]), 3: seq([1, 10])}), DCoeffs="<<5,8>>", KNonce="2",
         Crash="{%s, {}}" % ALLB if not th else crash, Forms='{"bin","json"}', Msg="<<>>", DomH3="{2}", DomH1="{5}",
         DomH2="{3}", DomHDKG="{4}", EMIT="TRUE")))
+    # a large threshold: the saved state grows with t (a size limit in the encoder would only show here)
+    n, th_ = 17, 16
+    ids = list(range(1, n + 1))
+    polys = {i: [((i * 7 + k * 13) % 250) + 1 for k in range(th_)] for i in ids}
+    rpolys = {i: [((i * 11 + k * 5) % 250) + 1 for k in range(th_ - 1)] for i in ids}
+    sl.append(dict(name="C_n17t16", module="C13", invariants=["InvEncodable", "InvCompletes", "Emit"], timeout=3000, consts=consts(
+        251, Shape="<<%d,%d>>" % (n, th_), Ids="1..%d" % n, Polys=fn({k: seq(v) for k, v in polys.items()}),
+        RPolys=fn({k: seq(v) for k, v in rpolys.items()}), DCoeffs=seq([((k * 17) % 250) + 1 for k in range(th_ - 1)]), KNonce="2",
+        Crash="{%s}" % ALLB, Forms='{"bin"}', Msg="<<1>>", DomH3="{2}", DomH1="{5}", DomH2="{3}", DomHDKG="{4}", EMIT="TRUE")))
     return sl
 
 
